@@ -7,6 +7,19 @@ import glob, json, os, re, shutil
 
 V = "/verif"
 
+# why the ones that were not caught were not caught (analysed by hand; see DESIGN.md 11.5)
+NOTES = {
+    "C03-append-stale-tail-bits": "a value-level defect of append on a uniquely owned buffer: outside C03's aliasing shapes, decided (and caught) by C04's check",
+    "C07-emit-byte-chunk-after-partial": "the rewrite goes through Vec<u8> growth of an opaque buffer (to_bytes_with_padding + extend): mirsym refuses, the emit lemma is undecided",
+    "C08-loop-counter-indexes-past-loop-stack": "the rewrite indexes a sub-slice of a vector with a symbolic hidden part: mirsym refuses; the committed coverage baseline turns the refusal into an inconclusive run",
+    "C12-collect-base-in-meta": "the wrong pointer reaches below the explicit cells into the symbolic hidden part: the slice is refused (C12 collect lemma undecided); C11's sealing lemmas do not cover collect",
+    "C12-str-slice-byte-len": "string slicing by characters: strings are opaque in the word lemmas (the text model is used for the lexer and token locations only)",
+    "C13-join-raw-match": "only the characters produced by join / concat change: text building is opaque in E2",
+    "C15-store-skipped-when-equal-while-recording": "found by the solver (recording on/off leaves different heaps), but the model it returns stores an equal untagged value, which is not observable natively: not reproduced, exit 2",
+    "C18-zero85-encode-zero-padding": "the rewrite pads through Cow::into_owned / Vec::resize on an opaque byte buffer: refused, encode lemma undecided",
+    "C07-concat-unaligned-raw-field": "a bit-level defect of append (whole-byte tail at an odd bit offset onto an aligned receiver): see the C04 run",
+}
+
 
 def main():
     conf = {}
@@ -95,9 +108,14 @@ def main():
         rows.append((prop, name, status, meta.get("needs_to_manifest", "")))
     with open(os.path.join(out, "INDEX.md"), "w") as f:
         f.write("# Seeded breaking changes and what the checks said\n\nEach directory: `patch.diff` (apply with `git -C /repo apply`), `demo.rs` (a test that passes on the unchanged tree and fails with the change; the 144 repository tests pass either way), `meta.json`.\n\n")
-        f.write("| property | change | result of the property's quick check |\n|---|---|---|\n")
+        f.write("| property | change | result of the property's quick check | note |\n|---|---|---|---|\n")
         for prop, name, status, _ in sorted(rows):
-            f.write("| %s | %s | %s |\n" % (prop, name, status.replace("|", "/")))
+            f.write("| %s | %s | %s | %s |\n" % (prop, name, status.replace("|", "/"), NOTES.get(name, "") if not status.startswith("caught by " + str(prop)) else ""))
+        n_c = sum(1 for r in rows if r[2].startswith("caught"))
+        n_i = sum(1 for r in rows if r[2].startswith("inconclusive"))
+        n_m = sum(1 for r in rows if r[2].startswith("missed"))
+        f.write("\nTotals: %d caught (exit 1 with a natively replayed violation), %d inconclusive (exit 2: the check refuses to pass but shows no replayed violation), %d missed (exit 0), %d not accepted.\n"
+                % (n_c, n_i, n_m, sum(1 for r in rows if r[2].startswith("NOT ACCEPTED"))))
     print("%d accepted, index written" % sum(1 for r in rows if not r[2].startswith("NOT ACCEPTED")))
     for r in sorted(rows):
         print(r[0], r[1], "=>", r[2][:150])
